@@ -94,6 +94,10 @@ func (e *EncryptedKey) Decrypt(priv *PrivateKey, config *Config) error {
 		return err
 	}
 
+	// One byte of cipher function, the key, two bytes of checksum.
+	if len(b) < 3 {
+		return errors.StructuralError("EncryptedKey session key too short")
+	}
 	e.CipherFunc = CipherFunction(b[0])
 	e.Key = b[1 : len(b)-2]
 	expectedChecksum := uint16(b[len(b)-2])<<8 | uint16(b[len(b)-1])
